@@ -191,12 +191,16 @@ def run(rep, tier, seed, replay=None):
             return list(group)
         if outcome == "silent":
             return [None]
-        if outcome == "malformed" or not dgs:
+        # (a further datagram too short to carry the reply header is a stray datagram: the listening loop stops there and
+        # keeps what it has; a record can only be cut short in a datagram that still has its header and something behind it)
+        if outcome == "malformed" or not dgs or len(dgs[-1]) < 7:
             return [b"\xff\xff"]
         # the section ends at the record that cannot be read: nothing is listened for after it
         return dgs[:-1] + [dgs[-1][:-1]]
 
-    u2combos = list(itertools.product("ste", "ste", U2_OUT, U2_OUT))
+    # a record cut short is a failure of the PLAYERS section only (fixed-width fields end every record); the rules reader
+    # tolerates a value that cannot be read, so a cut rules datagram is not necessarily a failed section
+    u2combos = list(itertools.product("ste", "ste", [o for o in U2_OUT if o != "cut"], U2_OUT))
     for b in u2[: (4 if tier == "quick" else 40)]:
         seg = b.seg()
         c0 = b.case()
